@@ -3,6 +3,7 @@ package crypto
 import (
 	"encoding/hex"
 	"encoding/json"
+	"filippo.io/edwards25519"
 	"fmt"
 	"os"
 )
@@ -103,6 +104,10 @@ func NewPublicKeyFromString(s string) (PublicKeyI, error) {
 func NewPublicKeyFromBytes(bz []byte) (PublicKeyI, error) {
 	switch len(bz) {
 	case Ed25519PubKeySize:
+		// a point of small order is no public key: a constant signature verifies under it for every message
+		if point, err := new(edwards25519.Point).SetBytes(bz); err != nil || point.MultByCofactor(point).Equal(edwards25519.NewIdentityPoint()) == 1 {
+			return nil, fmt.Errorf("invalid public key")
+		}
 		return BytesToED25519Public(bz), nil
 	case ETHSECP256K1PubKeySize, ETHSECP256K1PubKeySize + 1:
 		return BytesToEthSECP256K1Public(bz)
